@@ -29,6 +29,14 @@ STR_METHODS_TO_STR = {"strip", "lstrip", "rstrip", "replace", "format", "upper",
                       "capitalize", "zfill"}
 STR_METHODS_TO_BOOL = {"startswith", "endswith", "isalnum", "isdigit", "isupper", "islower", "isalpha"}
 
+# read-only methods of the external objects the library handles (networkx graphs: reporting views and queries;
+# compiled patterns / match objects)
+EXT_READ_ONLY = frozenset({
+    "nodes", "edges", "in_edges", "out_edges", "adjacency", "neighbors", "successors", "predecessors", "degree", "in_degree",
+    "out_degree", "has_node", "has_edge", "get_edge_data", "number_of_nodes", "number_of_edges", "nbunch_iter", "is_directed",
+    "is_multigraph", "order", "size", "match", "fullmatch", "search", "findall", "finditer", "group", "groups", "span",
+    "start", "end"})
+
 MAX_DEPTH_CALLS = 40
 MAX_SAME_FUNC = 3
 
@@ -50,6 +58,16 @@ class CallMixin:
         args = []
         for a in n.args:
             if isinstance(a, ast.Starred):
+                cv = a.value
+                if isinstance(cv, (ast.ListComp, ast.GeneratorExp)) and len(cv.generators) == 1 and not cv.generators[0].ifs:
+                    # f(*[g(x) for x in xs]) with xs of known arity (a display, a *args tuple): one argument per item
+                    itv = self.eval(cv.generators[0].iter, st, frame)
+                    if itv.items is not None and 1 <= len(itv.items) <= 4:
+                        for item in itv.items:
+                            sub = st.copy()
+                            self.bind_target(cv.generators[0].target, item, sub, frame)
+                            args.append(self.eval(cv.elt, sub, frame))
+                        continue
                 v = self.eval(a.value, st, frame)
                 if fav.fn == ("builtin", "zip") and len(n.args) == 1:
                     # zip(*rows): transposition; every column holds elements of the rows
@@ -60,8 +78,16 @@ class CallMixin:
                 if v.items is not None:
                     args.extend(v.items)
                 else:
-                    self.unresolved(frame, st, n, "star-args of unknown arity")
-                    args.append(elem_of(v))
+                    # a sequence of unknown length spread over the remaining positional parameters of a known callee:
+                    # each of them may receive any element
+                    k = self._positional_arity(fav)
+                    rest = sum(1 for x in n.args[n.args.index(a) + 1:] if not isinstance(x, ast.Starred))
+                    if k is not None and k - len(args) - rest >= 1 and \
+                            not any(isinstance(x, ast.Starred) for x in n.args[n.args.index(a) + 1:]):
+                        args.extend([elem_of(v)] * (k - len(args) - rest))
+                    else:
+                        self.unresolved(frame, st, n, "star-args of unknown arity")
+                        args.append(elem_of(v))
             else:
                 args.append(self.eval(a, st, frame))
         kwargs = {}
@@ -72,6 +98,29 @@ class CallMixin:
             else:
                 kwargs[kw.arg] = self.eval(kw.value, st, frame)
         return self.call_value(fav, args, kwargs, n, st, frame)
+
+    def _positional_arity(self, fav: AV):
+        """number of positional parameters the callee takes (receiver excluded), when the callee is known"""
+        fn = fav.fn
+        if fn is None:
+            return None
+        if fn[0] == "func":
+            fi, recv = fn[1], fn[2]
+            if isinstance(fi.node, ast.Lambda) or fi.node.args.vararg is not None:
+                return None
+            k = len(fi.params)
+            if fi.kind in ("method", "property", "setter", "class") and (recv is not None or fi.kind == "class"):
+                k -= 1
+            return k
+        if fn[0] == "class":
+            init = self.prog.find_method(fn[1], "__init__")
+            if init is None or init.node.args.vararg is not None:
+                return None
+            return len(init.params) - 1
+        if fn[0] == "lambda":
+            a = fn[1].args
+            return None if a.vararg is not None else len(a.args)
+        return None
 
     def call_value(self, fav: AV, args, kwargs, n, st, frame) -> AV:
         fn = fav.fn
@@ -98,6 +147,12 @@ class CallMixin:
             return self.call_function(fi, recv, args, kwargs, n, st, frame)
         if kind == "class":
             return self.construct(fn[1], args, kwargs, n, st, frame)
+        if kind == "methodcaller" and args:
+            # operator.methodcaller("m", *extra)(obj) is obj.m(*extra)
+            mav = self.get_attr(args[0], fn[1], n, st, frame, call=True)
+            return self.call_value(mav, list(fn[2]) + list(args[1:]), dict(kwargs), n, st, frame)
+        if kind == "attrgetter" and args:
+            return self.get_attr(args[0], fn[1], n, st, frame)
         if kind == "builtin":
             return self.call_builtin(fn[1], args, kwargs, n, st, frame)
         if kind == "bmeth":
@@ -735,6 +790,13 @@ class CallMixin:
         return r
 
     def _call_builtin_method(self, recv: AV, name, args, kwargs, n, st, frame, generic=False) -> AV:
+        if recv.fn is not None and recv.fn[0] == "builtin" and recv.fn[1] in ("str", "list", "set", "dict", "tuple") and args:
+            # unbound use of a builtin type's method (`map(str.strip, lines)`, `str.join(sep, parts)`): the first argument
+            # is the receiver
+            a_recv = args[0]
+            if recv.fn[1] == "str" and not a_recv.only("str"):
+                a_recv = replace(a_recv, types=frozenset({"str"}))
+            return self._call_builtin_method(a_recv, name, list(args[1:]), kwargs, n, st, frame, generic)
         deps = recv.deps.union(*[a.deps for a in args]) if args else recv.deps
         fresh = frozenset({self.fresh_loc(frame, n)})
         is_str = recv.only("str")
@@ -820,7 +882,10 @@ class CallMixin:
         if name == "join":
             return AV(types=frozenset({"str"}), deps=deps)
         if recv.types is not None and recv.types & {"ext", "extobj"}:
-            # method of an external object (networkx graph, compiled pattern ...): may update its receiver
+            # method of an external object (networkx graph, compiled pattern ...): may update its receiver - except the
+            # documented read-only views / queries of networkx graphs and of re patterns
+            if name in EXT_READ_ONLY:
+                return AV(types=frozenset({"extobj"}), deps=deps | all_deps(recv), alias=fresh)
             self.mutate(recv, join_all(args) if args else None, "add", n, st, frame, "ext:" + name)
             return AV(types=frozenset({"extobj"}), deps=deps, alias=fresh)
         if recv.is_top() and name in STR_METHODS_TO_STR | STR_METHODS_TO_BOOL | {"split", "splitlines", "find"}:
@@ -1005,6 +1070,9 @@ class CallMixin:
         a0 = args[0] if args else None
         self.ev(frame, st, "ecall", n, callee=name, args=tuple(args), kwargs=tuple(sorted(kwargs.items())))
         kind = self.EXT_PURE.get(name)
+        if name in ("operator.methodcaller", "operator.attrgetter") and a0 is not None and a0.has_const() and \
+                isinstance(a0.const, str) and (name.endswith("methodcaller") or len(args) == 1):
+            return AV(types=frozenset({"function"}), fn=(name.split(".")[1], a0.const, tuple(args[1:])), deps=deps)
         if name.startswith("operator.") and a0 is not None:
             # operator.or_(a, b) is a | b: dispatch to the dunder of the left operand
             dunder = {"or_": "__or__", "and_": "__and__", "add": "__add__", "sub": "__sub__", "xor": "__xor__",
